@@ -51,6 +51,8 @@ class Opts:
         self.avoid_ternary_multidim = False # C01/C10: a ?: branch that mentions a multi-dimensional element crashes the interpreter (SIGSEGV)
         self.avoid_assign_top_ternary = True # C01: `x = c ? a : ~(p == q);` stores the bool-normalised branch value (1 instead of -1)
         self.avoid_return_elem = True       # C04/C10: `return m[i][j];` (bare multi-dim element) loses the range check / crashes the caller
+        self.extras = False                 # further forms of the sequential core (C01 only): element ++/--, <<= >>=, call statements,
+                                            # void functions, narrow result types, static locals, print without newline
         self.max_stmts = 8
         self.max_depth = 3
         self.expr_depth = 3
@@ -70,6 +72,7 @@ class Gen:
         self.safe_funcs = set()   # functions whose body cannot fail and does not call unsafe functions
         self.safe_mode = False
         self.rec_funcs = set()
+        self.void_funcs = set()   # callable only as statements
         self.feats = set()
 
     def var(self):
@@ -162,7 +165,7 @@ class Gen:
                 benv["arrays"] = [a for a in env["arrays"] if len(a[2]) == 1]
             return "(cond %s %s %s)" % (c, self.expr(benv, d - 1, calls), self.expr(benv, d - 1, calls))
         if k < 0.88 and calls and self.funcs and env.get("calls_ok", True):
-            f = r.choice([f for f in self.funcs if f[0] in env.get("callable", [x[0] for x in self.funcs])] or [None])
+            f = r.choice([f for f in self.funcs if f[0] in env.get("callable", [x[0] for x in self.funcs]) and f[0] not in self.void_funcs] or [None])
             if f is None:
                 return self.leaf(env)
             fid, ptys, ndef = f
@@ -255,9 +258,43 @@ class Gen:
                 out.append("(if %s ((ret %s)) ())" % (self.expr(env, 1, calls=False), self.ret_expr(env, 2)))
             elif depth > 0 and r.random() < 0.3:
                 out.append("(block %s)" % " ".join(self.stmts(env, depth - 1, r.randint(1, 2), inloop, infunc)))
+            elif self.o.extras and r.random() < 0.8:
+                out.append(self.extra_stmt(env, writable, infunc))
             else:
                 out.append(self.println(env, 1))
         return out
+
+    def extra_stmt(self, env, writable, infunc):
+        """forms beyond the first generator (Opts.extras)"""
+        r = self.r
+        k = r.random()
+        # (++/-- on an element of a multi-dimensional array is rejected: finding C01-compound-elem-index)
+        arrs = [a for a in env["arrays"] if not a[3] and not (self.safe_mode and a[1] != "long") and len(a[2]) == 1]
+        if k < 0.25 and arrs:
+            a = r.choice(arrs)
+            self.feats.add("elem-incdec")
+            return "(incdec %d %d (idx %d %s))" % (r.randint(0, 1), r.randint(0, 1), a[0], self.indices(env, a[2], 1))
+        if k < 0.45 and writable and not self.safe_mode:
+            v = r.choice(writable)
+            self.feats.add("shift-compound")
+            return "(casg %s (v %d) %s)" % (r.choice(["<<", ">>"]), v[0], r.choice(["0", "1", "2", "3", "7", "31", "62", "63", self.expr(env, 1, calls=False)]))
+        if k < 0.65 and self.funcs and env.get("calls_ok", True):
+            cands = [f for f in self.funcs if f[0] in env.get("callable", []) and f[0] not in self.rec_funcs]
+            if cands:
+                fid, ptys, ndef = r.choice(cands)
+                n = len(ptys) - (r.randint(0, ndef) if ndef else 0)
+                self.feats.add("call-stmt")
+                return "(expr (call %d %s))" % (fid, " ".join(self.expr(env, 2, calls=False) for _ in range(n)))
+        if k < 0.80 and infunc is not None and not self.safe_mode:
+            # a static local: initialised once, updated and printed on every activation.  It is not added to the scalars in
+            # scope: a call argument that mentions the caller's static is evaluated in the callee (finding C08-args-in-callee-scope)
+            x = self.var()
+            t = r.choice(["int", "long", "short", "tiny"])
+            self.feats.add("static")
+            return "(block (decl 0 1 %s %d %s) (casg %s (v %d) %s) (print 1 (v %d)))" % (
+                t, x, r.choice(SMALL), r.choice(["+", "-", "*"]), x, r.choice(["1", "2", "3", "7", "100"]), x)
+        self.feats.add("print-no-nl")
+        return "(print 0 %s)" % " ".join(self.expr(env, 2, calls=False) for _ in range(r.randint(1, 2)))
 
     def println(self, env, n):
         if not self.o.avoid_print_retry:
@@ -350,9 +387,18 @@ class Gen:
                 ps.append((self.var(), t, d))
             env = {"scalars": genv["scalars"] + [(p[0], p[1]) for p in ps], "arrays": genv["arrays"], "ro": set(genv["ro"]),
                    "callable": [f[0] for f in self.funcs if (not safe or f[0] in self.safe_funcs)]}
-            body = self.stmts(env, 1, r.randint(1, 3), False, infunc=fid)
-            body.append("(ret %s)" % self.ret_expr(env, 2))
-            funcs.append("(F %d long (%s) (%s))" % (fid, " ".join("(%d %s%s)" % (p[0], p[1], "" if p[2] is None else " " + p[2]) for p in ps), " ".join(body)))
+            rty = "long"
+            if o.extras and not safe:
+                rty = r.choice(["long", "long", "int", "short", "tiny", "uint", "void"])
+                self.feats.add("ret-" + rty)
+            if rty == "void":
+                body = self.stmts(env, 1, r.randint(1, 3), False, infunc=None)
+                body.append("(ret)" if r.random() < 0.5 else self.println(env, 1))
+                self.void_funcs.add(fid)
+            else:
+                body = self.stmts(env, 1, r.randint(1, 3), False, infunc=fid)
+                body.append("(ret %s)" % self.ret_expr(env, 2))
+            funcs.append("(F %d %s (%s) (%s))" % (fid, rty, " ".join("(%d %s%s)" % (p[0], p[1], "" if p[2] is None else " " + p[2]) for p in ps), " ".join(body)))
             self.funcs.append((fid, [p[1] for p in ps], ndef))
             if safe:
                 self.safe_funcs.add(fid)
